@@ -210,10 +210,9 @@ Section Bases.
 Context {T : Type}.
 Variables (one : T) (psub pdiv : T -> T -> T) (iszero : T -> bool) (isalpha : N -> bool).
 
-Definition toks (s : Expand.str) : list Expand.str :=
-  match Loader.tokenize isalpha s with Some t => t | None => [] end.
-
-Definition nonM (l : Expand.str * T) : bool := negb (Loader.has_M (toks (fst l))).
+Notation toks := (PipelineSpec.toks isalpha).
+Notation nonM := (@PipelineSpec.nonM T isalpha).
+Notation skip_total := (@PipelineSpec.skip_total T one psub).
 
 Lemma read_bases_spec total (ls : list (Expand.str * T)) :
   (ls <> [] -> iszero total = false) ->
@@ -232,9 +231,6 @@ Proof.
   destruct (Loader.has_M tk); cbn [negb orb map fst snd]; rewrite ?Etoks; reflexivity.
 Qed.
 
-(* the divisor: 1 - P(M) when there is a Markov line, 1 otherwise *)
-Definition skip_total (ls : list (Expand.str * T)) : T :=
-  match Loader.scan_M ls with Some pm => psub one pm | None => one end.
 
 Theorem load_bases_spec (ls : list (Expand.str * T)) :
   (ls <> [] -> iszero (skip_total ls) = false) ->
@@ -276,9 +272,8 @@ Proof.
   apply dict_set_keys. now right.
 Qed.
 
-Definition base_counter (t : trained A) : counter OPS :=
-  @with_markov OPS (t_cov t) (t_n t) (@of_counts OPS (sc_base (pc_structs (t_counters t)))).
-Definition base_file (t : trained A) : counter OPS := calc_probs (base_counter t).
+Notation base_counter := (PipelineSpec.base_counter R).
+Notation base_file := (PipelineSpec.base_file R).
 
 Lemma lookup_grammar (t : trained A) :
   lookup_file R (save R t) (str_of_string "Grammar") (str_of_string "grammar.txt") = Some (base_file t).
